@@ -1,7 +1,91 @@
-/- line-protocol handler for model "range" (stub until its model is built) -/
+/- line-protocol handler for model "range" (C15): Range, conditional GET, HTTP dates.
+   Same ops and canonical output as harness/inproc/h_range.c. -/
+import LtVerif.Model.Range
+import LtVerif.Model.Cond304
 namespace Driver
+open LtVerif LtVerif.B LtVerif.Date LtVerif.Range LtVerif.Cond
+
+/-- "~" = header absent, otherwise hex ("-" = empty) -/
+def optHex (s : String) : Option (Option Bytes) :=
+  if s = "~" then some none else (ofHex s).map some
+
+def putOpt : Option Bytes → String
+  | none => "~"
+  | some b => toHex b
+
+/-- "m3,M2,f4" -> chunk sizes -/
+def layoutSizes (s : String) : Option (List Nat) :=
+  if s = "-" then some []
+  else (s.splitOn ",").mapM fun t => (t.drop 1).toString.toNat?
+
+def splitSizes : List Nat → Bytes → List Bytes
+  | [], _ => []
+  | n :: ns, b => b.take n :: splitSizes ns (b.drop n)
 
 def rangeLine : List String → String
+  | ["rng", meth, ver, a10, st, fl, lay, rep, rg, ir, et, lm, ct, ar] =>
+    match meth.toInt?, ver.toInt?, a10.toNat?, st.toInt?, fl.toNat?, layoutSizes lay, ofHex rep,
+          optHex rg, optHex ir, optHex et, optHex lm, optHex ct, optHex ar with
+    | some meth, some ver, some a10, some st, some fl, some sizes, some rep,
+      some rg, some ir, some et, some lm, some ct, some ar =>
+      if sizes.foldl (· + ·) 0 ≠ rep.length then "bad-op" else
+      let rq : Req := { method := meth, version := ver, allow10 := a10 ≠ 0, range := rg, ifRange := ir }
+      let enc := (fl &&& 2 ≠ 0) || (fl &&& 4 ≠ 0)
+      let rs : Resp := { status := st, finished := fl &&& 1 ≠ 0, encoded := enc,
+                         body := splitSizes sizes rep, etag := et, lastModified := lm,
+                         contentType := ct, acceptRanges := ar }
+      let o := rfc7233 rq rs
+      s!"{o.status} {putOpt o.contentRange} {putOpt o.contentType} {putOpt o.contentLength} {putOpt o.acceptRanges} {toHex o.body.flatten} 1"
+    | _, _, _, _, _, _, _, _, _, _, _, _, _ => "bad-op"
+  | ["parse", len, h] =>
+    match len.toInt?, ofHex h with
+    | some len, some h =>
+      if len ≤ 0 then "bad-op" else
+      let rs := parse h len
+      rs.foldl (fun acc r => acc ++ s!" {r.1}-{r.2}") (toString rs.length)
+    | _, _ => "bad-op"
+  | ["etag", w, e, h] =>
+    match w.toNat?, ofHex e, ofHex h with
+    | some w, some e, some h => if etagMatches e h (w ≠ 0) then "1" else "0"
+    | _, _, _ => "bad-op"
+  | ["cond", now, meth, hasr, inm, ims, et, lmp, lm, lmt] =>
+    match now.toInt?, meth.toInt?, hasr.toNat?, optHex inm, optHex ims, optHex et, lmp.toNat?,
+          optHex lm, lmt.toInt? with
+    | some now, some meth, some hasr, some inm, some ims, some et, some _, some lm, some lmt =>
+      let rq : CondReq := { method := meth, hasRange := hasr ≠ 0, ifNoneMatch := inm,
+                            ifModifiedSince := ims }
+      match handleCachable now rq et lm lmt with
+      | .goOn => "go"
+      | .notModified => "304"
+      | .preconditionFailed => "412"
+    | _, _, _, _, _, _, _, _, _ => "bad-op"
+  | ["ims", now, lmt, h] =>
+    match now.toInt?, lmt.toInt?, ofHex h with
+    | some now, some lmt, some h => if ifModifiedSince now h lmt then "1" else "0"
+    | _, _, _ => "bad-op"
+  | ["dparse", now, h] =>
+    match now.toInt?, ofHex h with
+    | some now, some h =>
+      match dateToTime now h with
+      | none => "null"
+      | some t => toString t
+    | _, _ => "bad-op"
+  | ["dfmt", t] =>
+    match t.toInt? with
+    | some t => toHex (timeToStr t)
+    | none => "bad-op"
+  | ["gmt", t] =>
+    match t.toInt? with
+    | some t =>
+      let (tm, w) := gmtime t
+      if tm.year - 1900 > 2147483647 ∨ tm.year - 1900 < -2147483648 then "null"
+      else s!"{tm.year} {tm.mon + 1} {tm.mday} {tm.hour} {tm.min} {tm.sec} {w}"
+    | none => "bad-op"
+  | ["tgm", y, m, d, hh, mm, ss] =>
+    match y.toInt?, m.toInt?, d.toInt?, hh.toInt?, mm.toInt?, ss.toInt? with
+    | some y, some m, some d, some hh, some mm, some ss =>
+      toString (timegm { year := y, mon := m - 1, mday := d, hour := hh, min := mm, sec := ss })
+    | _, _, _, _, _, _ => "bad-op"
   | _ => "bad-op"
 
 end Driver
